@@ -655,8 +655,12 @@ func writeEvidence(root string, a *Agg, nviol int) {
 		"violations":  nviol,
 	}
 	b, _ := json.MarshalIndent(ev, "", " ")
-	os.MkdirAll(filepath.Join(root, "evidence"), 0o755)
-	ioutil.WriteFile(filepath.Join(root, "evidence", p.ID+".json"), b, 0o644)
+	dir := filepath.Join(root, "evidence")
+	if d := os.Getenv("VERIF_EVIDENCE_DIR"); d != "" {
+		dir = d // scratch runs against modified trees must not overwrite the committed evidence
+	}
+	os.MkdirAll(dir, 0o755)
+	ioutil.WriteFile(filepath.Join(dir, p.ID+".json"), b, 0o644)
 }
 
 // ---------------------------------------------------------------------------
